@@ -242,6 +242,11 @@ def run(ctx: core.Ctx):
     finally:
         env.close()
 
+    # the packet itself byte for byte against Model/Packets.v and through its reference decoder
+    import packets_corr
+    npk, pbad, _pk = packets_corr.run(ctx, "c16p", 40 if ctx.quick else 600, only=("coldef-fieldlist",))
+    if pbad and witness is None:
+        witness = dict(kind="packet", **pbad[0])
     if witness is not None:
         core.report_violation(ctx, "a catalog answer does not mirror the declared schema / LIKE is not SQL LIKE", witness)
     if (not pr["ok"] or disagreements) and not ctx.violations:
